@@ -31,7 +31,7 @@ const (
 type Outcome struct {
 	K  int `json:"k,omitempty"`  // OOk | OErr | OPanic
 	PV int `json:"pv,omitempty"` // panic value kind: 0 string, 1 error, 2 runtime error, 3 struct, 4 pointer, 5 uncomparable struct, 6 slice, 7 error wrapping an older *cff.PanicError, 8 an older *cff.PanicError itself
-	EV int `json:"ev,omitempty"` // error value kind: 0 unique value, 1 wraps context.DeadlineExceeded, 2 wraps context.Canceled, 3 the execution's shared instance, 4 wraps the *cff.PanicError of a nested directive
+	EV int `json:"ev,omitempty"` // error value kind: 0 unique value, 1 wraps context.DeadlineExceeded, 2 wraps context.Canceled, 3 the execution's shared instance, 4 wraps the *cff.PanicError of a nested directive, 5 a typed nil pointer in a non-nil error interface
 	T  int `json:"t,omitempty"`  // timing: 0 instant, 1 yield, 2 sleep D microseconds
 	D  int `json:"d,omitempty"`
 }
@@ -105,6 +105,9 @@ type TaskErr struct {
 }
 
 func (e *TaskErr) Error() string {
+	if e == nil {
+		return "typed nil error value"
+	}
 	return fmt.Sprintf("unit %d elem %d failed (env %d)", e.Unit, e.Elem, e.Env)
 }
 
@@ -436,6 +439,9 @@ func (e *Env) finish(pos int, unit, elem int, o Outcome, canErr bool, outs []uin
 			inj.Err = &WrapErr{TaskErr{e.ID, unit, elem}, context.Canceled}
 		case 3:
 			inj.Err = e.sharedErr()
+		case 5:
+			// a non-nil error interface holding a nil pointer: still a failure
+			inj.Err = (*TaskErr)(nil)
 		case 4:
 			// what a task returns when it hands back the error of a nested
 			// directive one of whose functions panicked
